@@ -47,6 +47,8 @@ KINDS = ("rect", "conic", "azmask", "elmask", "azmaskcfg", "elmaskcfg", "los", "
 OVERLAP_TOL = 1e-6   # visible-Sun fraction against the disc-overlap interval
 AU_KM = 149597870.7
 SUN_DISTANCES = (AU_KM, 0.9833 * AU_KM, 1.0167 * AU_KM)
+EDGE_TOL = 1e-3      # the same within 1e-9 rad of an edge of the penumbra (the documented formula's arccos terms have
+                     # arguments within rounding of one there; measured 3.8e-4 on the clean tree); the RANGE [0, 1] is held exactly
 BAND = 1e-9          # relative / radian band inside which off-lattice inputs are undecided
 VEL = np.array([0.3, -0.2, 0.1])   # SEZ velocity part of the 6x1 slant-range vectors (km/s)
 
@@ -541,13 +543,13 @@ def visible_spherical(a, b, c):
     return 1.0 - area / cap
 
 
-def sun_overlap_check(ctx, real, frac, t3, sun3, replay, where):
+def sun_overlap_check(ctx, real, frac, t3, sun3, replay, where, tol=OVERLAP_TOL):
     """The fraction must lie between the flat-disc model of the documented reference and the exact spherical-cap
     overlap (both computed from independently derived apparent radii and separation).  Returns the model gap
     when the oracle says the eclipse is partial, else -1."""
     a, b, c = apparent_discs(real, t3, sun3)
     lo, hi = sorted((visible_planar(a, b, c), visible_spherical(a, b, c)))
-    if not (lo - OVERLAP_TOL <= frac <= hi + OVERLAP_TOL):   # also nan
+    if not (lo - tol <= frac <= hi + tol):   # also nan
         ctx.violation("sunviz-disc-overlap", f"calculateSunVizFraction = {frac} but the visible part of the Sun's disc is {lo:.9f}"
                       + (f" .. {hi:.9f}" if hi - lo > 1e-9 else "") + f" (apparent radii {a:.6f}, {b:.6f} rad, separation {c:.6f} rad): {where}",
                       dict(replay, a=a, b=b, c=c, expected=[lo, hi], got=frac))
@@ -784,6 +786,49 @@ def relations(ctx: Ctx, real: Real, rng: random.Random, n: int):
         if frac is not RAISED:
             sun_check(ctx, frac, "range", rps, "off-lattice target near the penumbra")
             sun_overlap_check(ctx, real, frac, t, dist * u, rps, f"off-lattice target at {r / RE:.3f} Earth radii, {sx:.3f} across the penumbra")
+    # ---- the two EDGES of the penumbra (separation = b - a and = a + b), located by bisection on independently derived
+    #      apparent discs and approached to 1e-16 .. 1e-9 rad from both sides: the fraction stays in [0, 1] and between the models
+    for i in range(n):
+        u = rand_unit(rng)
+        w = np.cross(u, rand_unit(rng))
+        w /= np.linalg.norm(w)
+        r, dist, outer = RE * rng.uniform(1.02, 10.0), AU_KM * rng.uniform(0.983, 1.017), i % 2
+
+        def pos(phi, r=r, u=u, w=w):
+            return r * (-math.cos(phi) * u + math.sin(phi) * w)
+
+        def off(phi, dist=dist, u=u, outer=outer):
+            a, b, c = apparent_discs(real, pos(phi), dist * u)
+            return c - (a + b) if outer else c - (b - a)
+
+        a0, b0 = math.asin(real.RS / dist), math.asin(RE / r)
+        lo = (b0 + a0 if outer else b0 - a0) - 0.5 * a0
+        hi = lo + a0
+        if not (off(lo) < 0 < off(hi)):
+            skipped += 1
+            continue
+        for _ in range(70):
+            mid = 0.5 * (lo + hi)
+            lo, hi = (lo, mid) if off(mid) > 0 else (mid, hi)
+        ctx.case(("rel-pen-edge", i))
+        for _ in range(6):
+            phi = lo + rng.choice((-1, 1)) * 10 ** rng.uniform(-16, -9)
+            t = pos(phi)
+            where = f"target at {r / RE:.3f} Earth radii within 1e-9 rad of the {'outer' if outer else 'umbra'} edge of the penumbra"
+            rps = {"t": t.tolist(), "sun": (dist * u).tolist()}
+            frac = sun_call(ctx, real, t, dist * u, where, rps)
+            if frac is not RAISED:
+                sun_check(ctx, frac, "range", rps, where)
+                sun_overlap_check(ctx, real, frac, t, dist * u, rps, where, tol=EDGE_TOL)
+    # ---- coincident positions: the degenerate segment is the point itself, unobstructed iff it lies outside the Earth
+    for i in range(n // 4):
+        pnt = rand_unit(rng) * RE * (rng.uniform(1.0 + 1e-6, 10.0) if i % 4 else rng.uniform(0.2, 1.0 - 1e-6))
+        exp = float(np.linalg.norm(pnt)) > RE
+        ctx.case(("rel-los-coincident", i))
+        got = guard(ctx, "los", "coincident positions", {"a": pnt.tolist()}, real.lineOfSight, pnt, pnt.copy())
+        if got is not RAISED and bool(got) != exp:
+            ctx.violation("los-coincident-points", f"lineOfSight(p, p) = {bool(got)} for a point at {np.linalg.norm(pnt) / RE:.6f} Earth radii "
+                          f"(the segment is the point itself: expected {exp})", {"a": pnt.tolist(), "expected": exp})
     return skipped
 
 
